@@ -11,6 +11,8 @@ CLAIMED = {
 }
 CLAIMED["C07"] = ("proof", "Theorems for every NumOps instance (Properties/C07.v): every reachable history (any sequence of add/remove/update/close/reopen) has 100 slots, newest first, no gaps; AddFlight is exactly 'stable sorted insert, keep newest 100' and refuses exactly a flight older than all 100; Update/EndTrip/ReopenTrip change markers only and never a traveller's trip end; remove after add restores a non-full history. The model (actual bisection, copy semantics, oldestChange bookkeeping) is compared with the real TripHistory after every step of generated scripts under the C07 projection (flight data + order of all 100 slots, traveller trip-end indices), with a Go ordered-list oracle as monitor.", "5 C07", "Coq proof (ordering invariant by induction over operations, refinement to sorted insert) + vm_compute correspondence")
 CLAIMED["C05"] = ("proof", "Theorems for every NumOps instance (Properties/C05.v): for every reachable history, every parameter set and every update time, a successful Update leaves nobody mid-trip whose marker-defined open trip started more than TripLength whole days ago or holds FlightsInTrip flights (loop invariant relating the tracked tripState to the markers + window lemma for startOfTrip); an ended trip is a no-op for Update and stays ended over any number of later updates. The model is compared with the real TripHistory after every step (full state hash incl. markers and oldestChange, MidTrip, tripStartEndLength, startOfTrip), and Go monitors state both halves of C05 on the real code.", "5 C05", "Coq proof (loop invariant over the update fold, induction over operations) + vm_compute correspondence")
+CLAIMED["C01"] = ("proof", "Theorems for every NumOps instance, i.e. bit-exact for float64 (Properties/C01.v): over every sequence of engine operations the balance of every stored traveller is the sequential sum of the ghost unbounded ledger and the stored window is its newest 100 entries; an accepted check-in appends exactly -d_i and (taxi != 0) -taxi per flight in order when debiting and nothing otherwise; the daily update appends at most the share; an erroring submission stores nothing; under commutative/associative addition the sum is order-independent. The engine model (real check-in loop, transact, correction options) is compared with the real Engine on LevelDB after every operation under the C01 projection; a Go monitor keeps its own unbounded ledger (bitwise).", "5 C01", "Coq proof (ledger invariant by induction over engine operations) + vm_compute correspondence")
+CLAIMED["C02"] = ("proof", "Theorems for every NumOps instance (Properties/C02.v): a one-flight check-in returns EGROUNDED iff not mid-trip, balance not >= 0 and no kept promise whose refreshed clearance is reached (also at the engine API on the stored or fresh record); mid-trip / never flown / zero balance / due kept promise are never refused; errors store nothing; an in-order multi-flight submission is refused only at its first flight. The unconditional multi-flight statement is refuted by a machine-checked witness (known finding). Correspondence: the result code of every check-in in generated engine histories; Go monitor recomputes 'grounded' from the record read just before each call.", "5 C02", "Coq proof (decision lemma, induction over the submitted flights) + vm_compute correspondence")
 PENDING = {}
 props = [json.loads(l) for l in open(os.path.join(V, "properties.jsonl"))]
 checks, na = [], []
